@@ -803,7 +803,63 @@ func runConc(c ConcCase) vkit.Result {
 			return vkit.Failf("%s", e)
 		}
 	}
+	// the same goroutines, now all encoding into ONE writer whose Write is atomic (a socket): the broker's connections are
+	// written to by several goroutines without a lock of their own, so what the independent decoder reads from the shared
+	// stream must be whole packets - exactly the packets that were encoded, each once
+	var sw sharedWriter
+	wantCount := map[string]int{}
+	for i := range jobs {
+		for _, j := range jobs[i] {
+			wantCount[string(j.want)]++
+		}
+	}
+	var wg2 sync.WaitGroup
+	for i := range jobs {
+		wg2.Add(1)
+		go func(i int) {
+			defer wg2.Done()
+			for _, j := range jobs[i] {
+				j.m.EncodeTo(&sw)
+				runtime.Gosched()
+			}
+		}(i)
+	}
+	wg2.Wait()
+	rd := bytes.NewReader(sw.b.Bytes())
+	for rd.Len() > 0 {
+		before := rd.Len()
+		cp, err := packets.ReadPacket(rd)
+		if err != nil {
+			return vkit.Failf("%d goroutines encoding into one connection: the independent decoder cannot read the stream after %d of %d bytes: %v (a packet was not handed to the connection in one piece)", len(jobs), sw.b.Len()-before, sw.b.Len(), err)
+		}
+		var one bytes.Buffer
+		cp.Write(&one)
+		raw := sw.b.Bytes()[sw.b.Len()-before : sw.b.Len()-rd.Len()]
+		if wantCount[string(raw)] == 0 {
+			return vkit.Failf("%d goroutines encoding into one connection: the stream contains a packet (%d bytes, type %T) that none of them encoded - packets were interleaved", len(jobs), len(raw), cp)
+		}
+		wantCount[string(raw)]--
+	}
+	for _, n := range wantCount {
+		if n != 0 {
+			return vkit.Failf("%d goroutines encoding into one connection: %d encoded packets are missing from the stream", len(jobs), n)
+		}
+	}
 	return vkit.OK(len(distinct) >= 2, fmt.Sprintf("goroutines-%d", len(jobs)))
+}
+
+// sharedWriter: one byte stream written by several goroutines; each Write call is atomic, as a socket write is.
+type sharedWriter struct {
+	mu sync.Mutex
+	b  bytes.Buffer
+}
+
+func (w *sharedWriter) Write(p []byte) (int, error) {
+	w.mu.Lock()
+	w.b.Write(p)
+	w.mu.Unlock()
+	runtime.Gosched()
+	return len(p), nil
 }
 
 func TestConcurrentEncode(t *testing.T) { vkit.Check(t, genConc, runConc) }
